@@ -205,9 +205,55 @@ def apply_gating(root: pathlib.Path):
         g.write_text(t.replace(blk, blk2))
     return [v[0] for v in variants]
 
+def apply_value_gating(root: pathlib.Path):
+    """Same idea for `Variable::as_type` (the recursive tag computation every array construction runs
+    on its elements): an element selected through a symbolic index has an unresolved tag, so CBMC would
+    walk the Function / Array / Mut / Tuple / Struct arms on garbage.  A harness may declare the compound
+    value kinds that occur; arms of undeclared kinds panic (=> harness FAILS if really reached)."""
+    f = root / 'src/variable.rs'
+    s = f.read_text()
+    reps = (
+        ('Variable::Function(var) | Variable::Array(var) | Variable::Mut(var) => var.as_type(),',
+         'Variable::Function(var) | Variable::Array(var) | Variable::Mut(var) => { #[cfg(kani)] verif_valgate::gate_val_of(var); var.as_type() },'),
+        ('            Variable::Tuple(elements) => {\n                let types = elements.iter().map(Variable::as_type).collect();',
+         '            Variable::Tuple(elements) => {\n                #[cfg(kani)] verif_valgate::gate_val(verif_valgate::V_TUPLE);\n                let types = elements.iter().map(Variable::as_type).collect();'),
+        ('            Variable::Struct(vm) => {\n                let tm: HashMap<Arc<str>, Type> = vm.iter()',
+         '            Variable::Struct(vm) => {\n                #[cfg(kani)] verif_valgate::gate_val(verif_valgate::V_STRUCT);\n                let tm: HashMap<Arc<str>, Type> = vm.iter()'),
+    )
+    n = 0
+    for old, new in reps:
+        if old in s:
+            s = s.replace(old, new, 1)
+            n += 1
+    if n == 0:
+        return 0
+    s += '''
+#[cfg(kani)]
+pub mod verif_valgate {
+    use super::*;
+    pub const V_FUNCTION: u32 = 0;
+    pub const V_ARRAY: u32 = 1;
+    pub const V_MUT: u32 = 2;
+    pub const V_TUPLE: u32 = 3;
+    pub const V_STRUCT: u32 = 4;
+    pub trait ValKind { const K: u32; }
+    impl ValKind for Arc<Function> { const K: u32 = V_FUNCTION; }
+    impl ValKind for Arc<Array> { const K: u32 = V_ARRAY; }
+    impl ValKind for Arc<Mut> { const K: u32 = V_MUT; }
+    pub static mut ALLOWED_VALS: u32 = u32::MAX;
+    /// mask = OR of (1 << V_x): the compound value kinds whose type may have to be computed
+    pub fn allow_vals(m: u32) { unsafe { ALLOWED_VALS = m; } }
+    #[inline(always)] pub fn gate_val(k: u32) { if unsafe { ALLOWED_VALS } & (1 << k) == 0 { panic!("value kind outside the set declared by the harness") } }
+    #[inline(always)] pub fn gate_val_of<T: ValKind>(_: &T) { gate_val(T::K) }
+}
+'''
+    f.write_text(s)
+    return n
+
 def apply_layout(root: pathlib.Path):
     open_fields(root)
     apply_gating(root)
+    apply_value_gating(root)
     done = []
     for rel, names in REPR_ENUMS.items():
         f = root / rel
